@@ -4,7 +4,7 @@ from math import comb
 import numpy as np
 from .common import guarded, run_model, rat, F
 
-RULE = ("n in 1..12 with every x (quick) plus generated n up to 60 (200 thorough), levels {.5,.8,.9,.95,.975,.99}, three "
+RULE = ("n in 1..12 with every x (quick) plus generated n up to 60 (200 thorough) and n in 255..1000 with counts at / next to the ends given as fresh ints, NumPy integers or computed from data, levels {.5,.8,.9,.95,.975,.99}, three "
         "alternatives, starting points p and solver keywords; the returned doubles are certified by exact "
         "rational evaluation of the defining tail inequality at +-delta; non-trivial = 0 < x < n; distinct by arguments")
 LEVEL = ("theorems binomSf_mono_p, cp_coverage_lower / cp_coverage_upper (coverage for every true p from certified "
@@ -21,11 +21,17 @@ def pmf(n, p, k):
 
 
 def sf(n, p, x):
+    if x <= 0:
+        return Fr(1)
+    if x - 1 < n - x:            # the lower part is the shorter sum
+        return 1 - sum(pmf(n, p, k) for k in range(0, x))
     return sum(pmf(n, p, k) for k in range(x, n + 1))
 
 
 def cdf(n, p, x):
-    return sum(pmf(n, p, k) for k in range(0, x + 1))
+    if x >= n:
+        return Fr(1)
+    return 1 - sf(n, p, x + 1)
 
 
 def level(cl, alt):
@@ -64,11 +70,29 @@ def run(ctx):
         p0 = ctx.rng.choice([None, None, 0.0, 1.0, 0.5, ctx.rng.random()])
         kw = ctx.rng.choice([{}, {}, {"xtol": 1e-10}, {"rtol": 1e-12}, {"maxiter": 200}, {"xtol": 1e-11, "rtol": 1e-13, "maxiter": 300}])
         cases.append((n, x, cl, alt, p0, kw))
+    # large n with counts at and next to the ends; the arguments as fresh Python ints (distinct objects even when equal:
+    # CPython shares small ints only up to 256), NumPy integer scalars, or counts computed from data
+    for _ in range(ctx.n(40, 400)):
+        n = ctx.rng.choice([255, 256, 257, 258, 300, 511, 512, 700, 1000])
+        x = ctx.rng.choice([0, n, n, 1, n - 1, 2, n - 2])
+        kind = ctx.rng.choice(["fresh-int", "fresh-int", "np.int64", "np.int32", "from-data"])
+        if kind == "fresh-int":
+            n_, x_ = int(str(n)), int(str(x))
+        elif kind == "np.int64":
+            n_, x_ = np.int64(n), np.int64(x)
+        elif kind == "np.int32":
+            n_, x_ = np.int32(n), np.int32(x)
+        else:
+            data = [1] * x + [0] * (n - x); n_, x_ = len(data), sum(data)
+        cases.append((n_, x_, ctx.rng.choice(CLS), ctx.rng.choice(ALTS), ctx.rng.choice([None, None, 0.5]), {}))
+        ctx.count("large-n-" + kind)
     results = {}
     ctx.rng.shuffle(cases)          # arbitrary call order: a result must not depend on earlier calls (caches, sticky keywords)
     for (n, x, cl, alt, p0, kw) in cases:
         r = guarded(utils.binom_conf_interval, n, x, cl, alt, p0, **kw)
-        det = {"call": "binom_conf_interval", "n": n, "x": x, "cl": cl, "alternative": alt, "p": p0, "kwargs": kw}
+        det = {"call": "binom_conf_interval", "n": int(n), "x": int(x), "argument_types": [type(n).__name__, type(x).__name__], "cl": cl,
+               "alternative": alt, "p": p0, "kwargs": kw}
+        n, x = int(n), int(x)
         ctx.case((n, x, cl, alt, p0, tuple(sorted(kw))), 0 < x < n, det if (kw or p0 is not None) else None)
         ctx.count("alt-" + alt); ctx.count("kwargs" if kw else "no-kwargs"); ctx.count("interior" if 0 < x < n else "boundary-x")
         if r[0] != "ok":
